@@ -62,6 +62,11 @@ type fataler interface {
 // reference result); otherwise the test fails.
 func violationOrKnown(t fataler, e *evProp, key string, format string, args ...any) bool {
 	t.Helper()
+	if os.Getenv("VERIF_SURVEY") != "" {
+		// development aid: list every distinct mismatch key instead of stopping at the first
+		e.excludedHit(key, fmt.Sprintf(format, args...))
+		return true
+	}
 	if knownOpen(key) {
 		knownOnce.Do(loadKnown)
 		e.excludedHit(key, knownMap[key].What)
